@@ -17,7 +17,7 @@
 #include <errno.h>
 #include <sched.h>
 
-#define VF_SCALE 40
+#define VF_SCALE 12
 #define MAXT 64
 #define MAXHELD 24
 #define MAXL 64
@@ -118,12 +118,18 @@ int vf_pthread_create(pthread_t *t, const pthread_attr_t *a, vf_fn fn, void *arg
 
 int vf_pthread_join(pthread_t t, void **ret) {
 	unsigned n = atomic_load(&n_created);
-	for (unsigned k = 1; k <= n && k < MAXT; k++)
+	/* pthread_t values are reused once a thread has been joined: the newest thread with this handle that is not
+	 * joined yet is meant; only if every thread that ever had the handle is joined already, it is a double join */
+	int seen = 0;
+	for (unsigned k = n < MAXT ? n : MAXT - 1; k >= 1; k--)
 		if (pthread_equal(th[k].handle, t)) {
-			if (atomic_exchange(&th[k].joined, 1)) { anomaly("pthread_join of already joined thread t%u", k); return EINVAL; }
+			seen = (int) k;
+			if (atomic_load(&th[k].joined)) continue;
+			atomic_store(&th[k].joined, 1);
 			atomic_fetch_add(&n_joined, 1);
 			return pthread_join(t, ret);
 		}
+	if (seen) { anomaly("pthread_join of already joined thread t%d", seen); return EINVAL; }
 	anomaly("pthread_join of a handle that was not created in this session");
 	return ESRCH;
 }
